@@ -126,7 +126,7 @@ def markup_cases():
 
 
 def search():
-    hit = markup_cases() or leak_cases()
+    hit = markup_cases() or leak_cases() or preprocessor_exit_case()
     if hit:
         return hit
     try:
@@ -171,7 +171,7 @@ def search():
 
 
 def count_cases():
-    return sum(1 for _ in corruptions()) + 6
+    return sum(1 for _ in corruptions()) + 7
 
 
 def leak_cases():
@@ -226,4 +226,37 @@ def leak_cases():
         if diff:
             return {"confirmed": True, "input": {"corruption": label, "file": text}, "actual": [str(x)[:300] for x in diff[:3]], "expected": "documentation and metadata of the valid files unchanged",
                     "how": "doc_list / summary / license of every entity of the valid files, with and without the rejected file (which is read before z_last.f90)"}
+    return None
+
+
+def preprocessor_exit_case():
+    """a preprocessed file the built-in preprocessor gives up on (it includes itself): reported, and the run goes on with the other files"""
+    fp = loader.import_repo("ford.fortran_project")
+    st = loader.import_repo("ford.settings")
+    import pathlib
+    files = dict(GOOD)
+    files["src/m_loop.F90"] = '#include "m_loop.F90"\nmodule looping\nend module looping\n'
+    realrun.reset_names()
+    with realrun.project_dir(files) as d:
+        out = io.StringIO()
+        cwd = os.getcwd()
+        os.chdir(d)
+        try:
+            with contextlib.redirect_stdout(out), contextlib.redirect_stderr(out):
+                import ford.console as fc
+                old = fc.console.file
+                fc.console.file = io.StringIO()
+                try:
+                    with watchdog(120):
+                        proj = fp.Project(st.ProjectSettings(src_dir=[pathlib.Path(d) / "src"], display=["public", "private", "protected"]))
+                finally:
+                    fc.console.file = old
+            names = sorted(f.name for f in proj.files)
+        except BaseException as e:
+            return {"confirmed": True, "input": {"file": files["src/m_loop.F90"], "preprocess": True}, "actual": f"run aborted: {type(e).__name__}: {e}",
+                    "expected": "the other files are documented", "how": "Project(...) with the default preprocessor (pcpp)"}
+        finally:
+            os.chdir(cwd)
+    if not {"a_first.f90", "z_last.f90"} <= set(names):
+        return {"confirmed": True, "input": {"file": files["src/m_loop.F90"]}, "actual": names, "expected": "a_first.f90 and z_last.f90 documented", "how": "Project(...) with the default preprocessor"}
     return None
